@@ -1494,8 +1494,8 @@ DESIGN_RUNS = {
     # thorough only: <= 4 operations delivered one at a time (B2B = FALSE).  The <= 4-operation back-to-back model
     # (FSEventsXlat_deep.cfg, 6.8 million states, holds) is not part of the registered run: on a busy machine it alone
     # can take longer than the tier's budget.
-    "FSEventsXlat@4": ("FSEventsXlat", None, "FSEventsXlat_thorough4.cfg",
-                       ["T_CreatedRemoved", "T_Plain", "T_RenamedPair", "T_RenamedIn", "T_RenamedOut", "T_RootChanged"]),
+    "FSEventsXlat@4": ("FSEventsXlat", None, "FSEventsXlat_thorough4.cfg",      # (no coalesced create+remove one at a time)
+                       ["T_Plain", "T_RenamedPair", "T_RenamedIn", "T_RenamedOut", "T_RootChanged"]),
     # the FSEvents model with inode RE-USE and sticky ItemCreated flags as environment choices (<= 3 operations;
     # quick: recursive, operations one at a time, no root removal)
     "FSEventsXlat+reuse": ("FSEventsXlat", "FSEventsXlat_reuse_quick.cfg", "FSEventsXlat_reuse.cfg",
